@@ -699,3 +699,25 @@ Proof.
     apply limit_tile_some in Hl. destruct Hl as (_ & Hvl & _). unfold valid_level in Hvl.
     destruct (ul (sg s)); unfold flip_tile_coord in Hoh'; replace (lvl <? 0) with false in Hoh' by lia; discriminate.
 Qed.
+
+(* ---- content of the served tile (composition with the meta tile model of C04, imported read-only) *)
+From MP Require Import MetaGrid MetaGrid_proofs.
+(* ---- content: the image stored for the tile of an address, cut out of its meta tile (MetaGrid.v: meta tile bbox,
+   tile pattern, TileSplitter, a picture that depends on the ground position only), shows at every pixel the picture
+   sampled over the rectangle the client computes for the address *)
+Lemma served_content_exact_l s srv a r c m q j k :
+  mg_grid m = sg s -> mwf m -> 0 < q ->
+  addr_ok s srv a -> client_rect s srv a = Some r -> served s srv a = Some c ->
+  (let '(cx, cy, cz) := c in no_buffer_cut m cx cy cz) ->
+  0 <= j < tw (sg s) -> 0 <= k < th (sg s) ->
+  model_pixel m q HowMeta c j k = Some (stored_pixel (sg s) q r (tw (sg s), th (sg s)) (0, 0) j k).
+Proof.
+  intros Hg Hm Hq Hok Hr Hs Hcut Hj Hk.
+  pose proof (address_exact_l s srv a r c Hok Hr Hs) as He.
+  pose proof (served_valid s srv a c Hs) as Hv.
+  destruct c as [[cx cy] cz]. cbn [tile_bbox_c] in He.
+  apply limit_tile_some in Hv. destruct Hv as (_ & Hvl & Hx & Hy).
+  rewrite <- Hg in *.
+  rewrite (meta_equals_single_lemma m q cx cy cz j k Hm Hvl Hq Hx Hy Hcut Hj Hk).
+  unfold model_pixel. rewrite He. reflexivity.
+Qed.
